@@ -255,6 +255,74 @@ func Families() []Family {
 		Actions: []string{"allocate", "consolidation", "preempt"},
 	}})
 
+	// ---- commits with refused evictions (fault injection; no designated scenario: the commit-level
+	// refinement and the monitor judge them) ---------------------------------------------------------
+	twoVictims := func(name, action string, fe, fr, fb []int) Family {
+		var f Family
+		if action == "preempt" {
+			f = preemptBase(name)
+		} else {
+			f = reclaimBase(name)
+		}
+		f.C.Nodes[0].Gpus = 2
+		vj := f.C.Jobs[0]
+		f.C.Jobs = []Job{
+			job("va", vj.Queue, vj.Priority, 1, outside, pod("va-0", pod_status.Running, "n1", 1)),
+			job("vb", vj.Queue, vj.Priority, 1, outside, pod("vb-0", pod_status.Running, "n1", 1)),
+			f.C.Jobs[1],
+		}
+		f.C.Jobs[2].Pods[0].Gpus = 2
+		f.C.Queues[0].Deserved, f.C.Tops[0].Deserved = 2, 2
+		f.C.FailEvicts, f.C.FailInRun, f.C.FailBinds = fe, fr, fb
+		f.D = Designated{}
+		return f
+	}
+	for _, a := range []string{"reclaim", "preempt"} {
+		add(twoVictims(a+"/two-victims-no-fault", a, nil, nil, nil))
+		add(twoVictims(a+"/two-victims-first-evict-refused", a, []int{0}, nil, nil))
+		add(twoVictims(a+"/two-victims-second-evict-refused", a, []int{1}, nil, nil))
+		add(twoVictims(a+"/two-victims-both-evicts-refused", a, []int{0, 1}, nil, nil))
+	}
+	// a gang of three victim pods for a gang of two pending pods; a third job is bound first and its Bind refused
+	gangFault := func(name string, fe, fr, fb []int) Family {
+		f := reclaimBase(name)
+		f.C.Nodes = []core.NodeSpec{node("n1", 4)}
+		f.C.Queues[0].Deserved, f.C.Tops[0].Deserved = 4, 4
+		f.C.Jobs = []Job{
+			job("v", "q2", 50, 3, outside, pod("v-0", pod_status.Running, "n1", 1), pod("v-1", pod_status.Running, "n1", 1), pod("v-2", pod_status.Running, "n1", 1)),
+			job("s", "q1", 90, 1, 0, pod("s-0", pod_status.Pending, "", 1)),
+			job("p", "q1", 50, 2, 0, pod("p-0", pod_status.Pending, "", 1), pod("p-1", pod_status.Pending, "", 1)),
+		}
+		f.C.FailEvicts, f.C.FailInRun, f.C.FailBinds = fe, fr, fb
+		f.D = Designated{}
+		return f
+	}
+	add(gangFault("reclaim/gang-of-three-no-fault", nil, nil, nil))
+	add(gangFault("reclaim/gang-of-three-middle-evict-refused", nil, []int{1}, nil))
+	add(gangFault("reclaim/gang-of-three-last-two-refused", nil, []int{1, 2}, nil))
+	add(gangFault("reclaim/gang-of-three-bind-and-second-evict-refused", []int{1}, nil, []int{0}))
+	// consolidation moves two pods together; the second eviction is refused
+	twoMoved := func(name string, fe []int) Family {
+		f := Family{Name: name, C: Cluster{
+			Nodes:  []core.NodeSpec{node("n1", 4), node("n2", 4)},
+			Tops:   []Queue{top("d1", 8)},
+			Queues: []Queue{leaf("q1", "d1", 8), leaf("q2", "d1", 0)},
+			Jobs: []Job{
+				job("a", "q1", 50, 1, outside, pod("a-0", pod_status.Running, "n1", 1)),
+				job("b", "q1", 50, 1, outside, pod("b-0", pod_status.Running, "n1", 1)),
+				job("c", "q1", 50, 1, outside, pod("c-0", pod_status.Running, "n2", 1)),
+				job("d", "q1", 50, 1, outside, pod("d-0", pod_status.Running, "n2", 1)),
+				job("p", "q1", 50, 1, 0, pod("p-0", pod_status.Pending, "", 4)),
+			},
+			Actions: []string{"allocate", "consolidation"},
+		}}
+		f.C.FailEvicts = fe
+		return f
+	}
+	add(twoMoved("consolidation/two-moved-no-fault", nil))
+	add(twoMoved("consolidation/two-moved-first-evict-refused", []int{0}))
+	add(twoMoved("consolidation/two-moved-second-evict-refused", []int{1}))
+
 	// ---- consolidation --------------------------------------------------------
 	add(consolidationBase("consolidation/moves-one"))
 	add(consolidationBase("consolidation/non-preemptible-victims", func(f *Family) {
